@@ -447,6 +447,9 @@ func (p *Parser) parseReturn() *ast.Return {
 	p.nextToken()
 	value := p.parseExpression(LOWEST)
 	if value == nil {
+		if p.err == nil {
+			p.setTokenError(p.curToken, "invalid return value")
+		}
 		return nil
 	}
 	return ast.NewReturn(returnToken, value)
@@ -1435,6 +1438,16 @@ func (p *Parser) parseExprList(end token.Type) []ast.Expression {
 	if !p.expectPeek("an expression list", end) {
 		return nil
 	}
+	// An item that failed to parse without recording an error (for example an
+	// "if" with no condition) must not end up in the tree as a nil node
+	for _, item := range list {
+		if item == nil {
+			if p.err == nil {
+				p.setTokenError(p.curToken, "invalid syntax in list expression")
+			}
+			return nil
+		}
+	}
 	return list
 }
 
@@ -1484,6 +1497,14 @@ func (p *Parser) parseNodeList(end token.Type) []ast.Node {
 	}
 	if !p.expectPeek("a node list", end) {
 		return nil
+	}
+	for _, item := range list {
+		if item == nil {
+			if p.err == nil {
+				p.setTokenError(p.curToken, "invalid syntax in list expression")
+			}
+			return nil
+		}
 	}
 	return list
 }
@@ -1773,6 +1794,12 @@ func (p *Parser) parseMapOrSet() ast.Node {
 				return nil
 			}
 			key := p.parseExpression(LOWEST)
+			if key == nil {
+				if p.err == nil {
+					p.setTokenError(p.curToken, "invalid syntax in set expression")
+				}
+				return nil
+			}
 			items = append(items, key)
 			if !p.peekTokenIs(token.COMMA) {
 				break
